@@ -69,7 +69,7 @@ def check(acc, desc, values=True, repeat=False):
     acc.transitions += 1
     try:
         if case.get("repeat"):
-            cg.tx.acyclic_unroll(c)  # an earlier call on the same object must not matter
+            space.scramble(cg.tx.acyclic_unroll(c))  # an earlier call (its result edited by the caller) on the same object must not matter
             if isinstance(case["repeat"], list):
                 u, v, w = case["repeat"]
                 c.disconnect(u, v)      # move one edge: same number of nodes and edges, another cycle structure
